@@ -8,8 +8,11 @@ EXPR_CONTEXTS = [
     ("nestedparen", "y = ((%s));"), ("ternary", "y = y ? %s : 0;"), ("comma", "y = (0, %s);"), ("binaryrhs", "y = 1 + %s;"), ("unary", "y = !%s;"),
     ("arrayinit", "int q%d[2] = { %s, 0 };"), ("compound", "{ y = %s; }"), ("labeled", "l%d: y = %s;"), ("ifbody", "if (y) y = %s; else y = %s;"),
     ("vla", "{ int w%d[%s]; }"), ("staticassert", "_Static_assert(%s, \"m\");"),
+    # inside the TYPE NAME of a cast, a sizeof, a generic association, a compound literal (an array size in it)
+    ("casttype", "y = (char (*)[%s]) 0 != 0;"), ("sizeoftype", "y = sizeof(int[%s]) != 0;"),
+    ("generictype", "y = _Generic(&arr, int (*)[%s]: 1, default: 2);"), ("compoundlit", "y = ((int[%s]) { 0 }) [0];"),
 ]
-STMT_CONTEXTS = [("body", "%s"), ("block", "{ %s }"), ("ifblock", "if (y) { %s }"), ("elseblock", "if (y) ; else { %s }"), ("forblock", "for (;;) { %s break; }"),
+STMT_CONTEXTS = [("forinit", "for (%s ; ) break;"), ("body", "%s"), ("block", "{ %s }"), ("ifblock", "if (y) { %s }"), ("elseblock", "if (y) ; else { %s }"), ("forblock", "for (;;) { %s break; }"),
                  ("whileblock", "while (y) { %s break; }"), ("nested", "{ { %s } }"), ("switchblock", "switch (y) { default: { %s } }"), ("after", "y = 1; %s y = 2;")]
 
 
@@ -59,6 +62,8 @@ class AmbigGen:
             return None                                    # needs a constant expression
         op = {"cast-": "-", "cast+": "+", "cast*": "*", "cast&": "&", "cast&&": "&&"}.get(form)
         xdecl = ""
+        if op and name in ("generictype", "compoundlit"):
+            return None                                    # needs a constant array size of positive value
         if op:
             if how == "file_typedef_struct":
                 return None                                # a cast to a struct type is not valid C
@@ -107,6 +112,8 @@ class AmbigGen:
         name, tmpl = ctx
         if name in ("case", "staticassert") or how in ("enumerator", "file_typedef_struct"):
             return None
+        if name in ("generictype", "compoundlit") and form != "sizeofsuffix:":
+            return None                                    # needs a constant array size
         kind, op = form.split(":")
         import re
 
@@ -209,8 +216,8 @@ class AmbigGen:
             if x_predeclared:
                 return None
         name, tmpl = ctx
-        if is_type and x_predeclared and name in ("body", "after"):
-            pass
+        if name == "forinit" and form == "fn":
+            return None                                    # 6.8.5p3: the declaration part of a for statement declares objects only
         stmt = tmpl % s
         body = "int y = 0; %s%s%s%s" % (blockd, pre, zdecl, stmt)
         text = "%sint g(int a) { return a; }\nint *gp(int a) { static int s_[4]; return s_ + a; }\nint f(%s)\n{\n %s\n return 0;\n}\n" % (filed, param or "void", body)
